@@ -406,6 +406,33 @@ func genJava(t *rapid.T) JavaCase {
 		add(f)
 	}
 	c.Ignore = extras.ignore
+	// seventh seed batch: a hub (facade, registry) that calls more than twenty other classes of the tree, which
+	// call each other in a chain: every step the hub also reaches through an earlier step is a connected call
+	if rapid.IntRange(0, 3).Draw(t, "hubClass") == 3 {
+		n := rapid.IntRange(21, 24).Draw(t, "hubCallees")
+		var w jw
+		w.f("package com.acme.hub;\n\npublic class Facade {\n")
+		for k := 1; k <= n; k++ {
+			w.f("    private Step%d step%d = new Step%d();\n", k, k, k)
+		}
+		w.f("\n    public void runAll() {\n")
+		for k := 1; k <= n; k++ {
+			w.f("        step%d.run();\n", k)
+		}
+		w.f("    }\n}\n")
+		add(jgen.File{Path: "com/acme/hub/Facade.java", Text: w.b.String()})
+		for k := 1; k <= n; k++ {
+			var s jw
+			s.f("package com.acme.hub;\n\npublic class Step%d {\n", k)
+			if k < n {
+				s.f("    private Step%d next = new Step%d();\n\n    public void run() {\n        next.run();\n    }\n}\n", k+1, k+1)
+			} else {
+				s.f("    public void run() {\n    }\n}\n")
+			}
+			add(jgen.File{Path: fmt.Sprintf("com/acme/hub/Step%d.java", k), Text: s.b.String()})
+		}
+		roots = append(roots, "com.acme.hub.Facade.runAll")
+	}
 	if len(extras.roots) > 0 && rapid.Bool().Draw(t, "rootsFromExtras") {
 		roots = append(append([]string(nil), extras.roots...), roots...)
 	} else {
